@@ -870,6 +870,39 @@ func runC07(r *Run) {
 	} else {
 		r.Bad("R15", "anchor/NewDynamicFeeChecker", "", "not found")
 	}
+	r.Rule("R17", "PATH.a-precompile-panic-fails-the-call: the deferred handler every stateful precompile installs (precompiles/common.HandleGasError) recovers and does not panic again: a panic that escapes a precompile reaches baseapp's runTx, which drops the message branch — the execution *and* the gas refund — after the ante handler has deducted gas limit × price, so the sender pays the whole limit for gas_used = 0 (staking.undelegate(self, validator, 2^256−1): 'Int overflow' inside x/staking)")
+	if hg, ok := P.FnOK("precompiles/common.HandleGasError"); ok {
+		nRec := 0
+		for _, g := range withAnon(hg) {
+			recovers := false
+			eachInstr(g, func(in ssa.Instruction) {
+				if c, ok := in.(*ssa.Call); ok {
+					if b, ok := c.Call.Value.(*ssa.Builtin); ok && b.Name() == "recover" {
+						recovers = true
+					}
+				}
+			})
+			if !recovers {
+				continue
+			}
+			nRec++
+			var rep ssa.Instruction
+			eachInstr(g, func(in ssa.Instruction) {
+				if pn, ok := in.(*ssa.Panic); ok && rep == nil {
+					rep = pn
+				}
+			})
+			where := P.Pos(fnPos(g))
+			if rep != nil {
+				where = P.Pos(instrPos(rep))
+			}
+			r.Check(rep == nil, "R17", fnID(g)+"#recovered-panics-stay-recovered", where, "the recovering handler contains no panic",
+				"the precompiles' deferred handler panics again for everything but out-of-gas: staking.undelegate(self, validator, 2^256−1) panics 'Int overflow' in x/staking, the panic reaches baseapp — code 111222, gas_wanted 200000, gas_used 0, and the sender has paid 200000 × 875000000 = 175000000000000 with nothing refunded (the fee identity requires 0)")
+		}
+		r.Floor("R17", "recovering handlers in precompiles/common.HandleGasError", nRec, 1)
+	} else {
+		r.Bad("R17", "anchor/precompiles/common.HandleGasError", "", "not found")
+	}
 	r.Rule("R16", "FLOW.the-multiplier-is-the-parameter + the-tx-total-is-kept-on-the-tx-context: (a) the minimum-gas multiplier that ApplyMessageWithConfig charges with is the fee market's parameter as stored — the EVM keeper's GetMinGasMultiplier has one return whose value derives from Params.MinGasMultiplier and from no constant or default (zero is a legal setting: 'no minimum'; replacing it by the default charges 50% of the gas limit on a chain configured for none); (b) ApplyTransaction adds a message's gas to the transaction's running total (AddTransientGasUsed) and resets the gas meter on the transaction's own context, never on the CacheContext branch the message ran on — that branch is dropped when the message fails, and the gas of a failed message would vanish from DeliverTx.GasUsed while its fee stays charged")
 	if gm, ok := P.FnOK("(x/evm/keeper.Keeper).GetMinGasMultiplier"); ok {
 		okRet, nRet := true, 0
